@@ -32,7 +32,7 @@ def q(tier, quick, thorough):
     return quick if tier == "quick" else thorough
 
 
-DIRECTED = "stun-flood,listen-random-ports,sudp-close-under-traffic,sudp-close-under-traffic,many-proxies-drop,plugin-users"
+DIRECTED = "stun-flood,listen-random-ports,sudp-close-under-traffic,sudp-close-under-traffic,many-proxies-drop,plugin-users,vnet-frames"
 
 
 def race_build(wait=True, proc=None):
